@@ -724,3 +724,201 @@ Proof.
   destruct (g_method U t ptr nm) as [m|] eqn:E; [|discriminate].
   apply g_method_spec in E as [t' [d [Hr [Hd [Hm <-]]]]]. eapply y_methods_complete; eassumption.
 Qed.
+
+(* ------------------------------------------------------------------------------------------ *)
+(** * Assertions to an interface type *)
+
+Lemma imethods_in fuel U : forall j ks, In ks (imethods fuel U j) -> exists d, In d (ifaces U) /\ In ks (i_meths d).
+Proof.
+  induction fuel as [|k IH]; intros j ks H; [destruct H|]. cbn [imethods] in H.
+  destruct (nth_error (ifaces U) j) as [d|] eqn:E; [|destruct H].
+  apply in_app_or in H as [H|H].
+  - apply in_flat_map in H as [j' [_ H]]. eapply IH; eassumption.
+  - exists d. split; [eapply nth_error_In; eassumption|exact H].
+Qed.
+
+Lemma g_imethods_sigs U j ks : In ks (g_imethods U j) -> In ks (all_sigs U).
+Proof.
+  intros H. apply imethods_in in H as [d [Hd Hk]]. unfold all_sigs. apply in_or_app; right.
+  apply in_flat_map. exists d. auto.
+Qed.
+
+Lemma y_imethods_in U j kv : In kv (y_imethods U j) -> In kv (g_imethods U j).
+Proof. unfold y_imethods. intros H. apply mmerge_in in H as [[]|H]. exact H. Qed.
+
+Lemma y_imethods_keys U j k : In k (keys (y_imethods U j)) <-> In k (keys (g_imethods U j)).
+Proof.
+  unfold y_imethods. split; intros H.
+  - apply mmerge_keys_inv in H as [[]|H]. exact H.
+  - apply mmerge_keys_r; exact H.
+Qed.
+
+Lemma y_imethods_nodup U j : NoDup (keys (y_imethods U j)).
+Proof. unfold y_imethods. apply mmerge_nodup. constructor. Qed.
+
+Definition declared (U : universe) (kv : str * N) : Prop :=
+  exists d m, In d (structs U) /\ In m (s_meths d) /\ kv = (m_name m, m_sig m).
+
+Lemma walk_fields_declared U rec :
+  (forall s t s' r, rec s t = (s', r) -> forall kv, In kv r -> declared U kv) ->
+  forall fs seen acc seen' r, walk_fields rec fs seen acc = (seen', r) ->
+    (forall kv, In kv acc -> declared U kv) -> forall kv, In kv r -> declared U kv.
+Proof.
+  intros Hrec. induction fs as [|f fs IH]; intros seen acc seen' r H Hacc kv Hkv; cbn [walk_fields] in H.
+  - injection H as _ <-. apply Hacc, Hkv.
+  - destruct (embed_target f) as [t1|].
+    + destruct (rec seen t1) as [s2 r2] eqn:Er. eapply IH; [exact H| |exact Hkv].
+      intros kv' Hin. apply mmerge_in in Hin as [Hin|Hin]; [apply Hacc, Hin|eapply Hrec; eassumption].
+    + eapply IH; eassumption.
+Qed.
+
+Lemma y_methods_aux_declared U fuel : forall seen t seen' r,
+  y_methods_aux fuel U seen t = (seen', r) -> forall kv, In kv r -> declared U kv.
+Proof.
+  induction fuel as [|k IH]; intros seen t seen' r H kv Hkv.
+  - cbn in H. injection H as _ <-. destruct Hkv.
+  - rewrite y_methods_aux_S in H. destruct (memb t seen); [injection H as _ <-; destruct Hkv|].
+    destruct (sdecl_of U t) as [d|] eqn:Ed; [|injection H as _ <-; destruct Hkv].
+    match type of H with context [walk_fields ?a ?b ?c ?e] => destruct (walk_fields a b c e) as [s1 r1] eqn:Ew end.
+    injection H as _ <-. apply add_own_in in Hkv as [Hkv|[m [Hm ->]]].
+    + eapply (@walk_fields_declared U (y_methods_aux k U) IH); [exact Ew| |exact Hkv]. intros kv' [].
+    + exists d, m. split; [eapply nth_error_In; exact Ed|]. auto.
+Qed.
+
+Lemma y_methods_declared U t kv : In kv (y_methods U t) -> declared U kv.
+Proof.
+  unfold y_methods. destruct (y_methods_aux (S (length (structs U))) U [] t) as [s' r] eqn:E. cbn [snd].
+  eapply y_methods_aux_declared; eassumption.
+Qed.
+
+Lemma declared_sigs U kv : declared U kv -> In kv (all_sigs U).
+Proof.
+  intros [d [m [Hd [Hm ->]]]]. unfold all_sigs. apply in_or_app; left. apply in_flat_map. exists d. split; [exact Hd|].
+  apply in_map_iff. exists m. auto.
+Qed.
+
+Lemma sig_cons U k a b : sig_consistent U = true -> In (k, a) (all_sigs U) -> In (k, b) (all_sigs U) -> a = b.
+Proof.
+  intros H Ha Hb. unfold sig_consistent in H. rewrite forallb_forall in H. specialize (H _ Ha).
+  rewrite forallb_forall in H. specialize (H _ Hb). cbn [fst snd] in H. rewrite str_eqb_refl in H. cbn in H.
+  apply N.eqb_eq in H. exact H.
+Qed.
+
+Lemma g_method_declared U t ptr k m : g_method U t ptr k = Some m -> In (k, m_sig m) (all_sigs U).
+Proof.
+  intros H. apply g_method_spec in H as [t' [d [_ [Hd [Hm <-]]]]]. apply declared_sigs.
+  exists d, m. split; [eapply nth_error_In; exact Hd|]. auto.
+Qed.
+
+Lemma in_keys (m : mmap) k v : In (k, v) m -> In k (keys m).
+Proof. intros H. apply (in_map fst) in H. exact H. Qed.
+
+(** ** C05_assert_partial: two-result assertion of a non-nil value to an interface type *)
+Theorem assert_agree : forall U t ptr j srcm,
+  wf U = true -> t < length (structs U) -> sig_consistent U = true -> names_agree U t ptr = true ->
+  y_assert U SrcIface srcm (Some (t, ptr)) (TIface j) A2 = g_assert U (Some (t, ptr)) (TIface j) A2.
+Proof.
+  intros U t ptr j srcm HU Ht Hsig Hnames.
+  unfold y_assert, g_assert. cbn [y_static_reject g_holds].
+  assert (Hsub : g_implements U t ptr j = true -> incl (keys (y_imethods U j)) (keys (y_methods U t))).
+  { intros Hg k Hk. apply y_imethods_keys in Hk. unfold keys in Hk. apply in_map_iff in Hk as [[k' s1] [<- Hin]].
+    unfold g_implements in Hg. rewrite forallb_forall in Hg. specialize (Hg _ Hin). cbn [fst snd] in Hg.
+    destruct (g_method U t ptr k') as [m|] eqn:Em; [|discriminate].
+    apply g_method_spec in Em as [t' [d [Hr [Hd [Hm <-]]]]].
+    apply (@y_methods_complete U HU t t' d m Ht Hr Hd Hm). }
+  destruct (g_implements U t ptr j) eqn:Eg.
+  - (* Go: holds *)
+    specialize (Hsub eq_refl).
+    assert (Hlen : length (y_methods U t) <? length (y_imethods U j) = false).
+    { apply Nat.ltb_ge. rewrite <- (map_length fst (y_imethods U j)), <- (map_length fst (y_methods U t)).
+      apply NoDup_incl_length; [apply y_imethods_nodup|exact Hsub]. }
+    rewrite Hlen.
+    assert (Hok : y_iface_ok U t j = true).
+    { unfold y_iface_ok. apply forallb_forall. intros [k s1] Hin. cbn [fst snd].
+      assert (Hk : In k (keys (y_methods U t))) by (apply Hsub; eapply in_keys; exact Hin).
+      apply mget_keys in Hk as [s0 Hs0]. rewrite Hs0.
+      assert (s0 = s1) as ->.
+      { eapply sig_cons; [exact Hsig| |].
+        - apply declared_sigs. apply (@y_methods_declared U t). apply mget_in, Hs0.
+        - apply (@g_imethods_sigs U j). apply y_imethods_in, Hin. }
+      unfold y_sig_match. rewrite N.eqb_refl. reflexivity. }
+    rewrite Hok. reflexivity.
+  - (* Go: does not hold *)
+    destruct (length (y_methods U t) <? length (y_imethods U j)); [reflexivity|].
+    destruct (y_iface_ok U t j) eqn:Eok; [|reflexivity]. exfalso.
+    assert (Hg : g_implements U t ptr j = true); [|congruence].
+    unfold g_implements. apply forallb_forall. intros [k s1] Hin. cbn [fst snd].
+    assert (Hk1 : In k (keys (y_imethods U j))) by (apply y_imethods_keys; eapply in_keys; exact Hin).
+    apply mget_keys in Hk1 as [s1' Hs1']. apply mget_in in Hs1'.
+    unfold y_iface_ok in Eok. rewrite forallb_forall in Eok. specialize (Eok _ Hs1'). cbn [fst snd] in Eok.
+    destruct (mget k (y_methods U t)) as [s0|] eqn:Em0; [|discriminate].
+    apply mget_some_keys in Em0.
+    unfold names_agree in Hnames. rewrite forallb_forall in Hnames. specialize (Hnames k Em0).
+    destruct (g_method U t ptr k) as [m|] eqn:Em; [|discriminate].
+    apply N.eqb_eq. eapply sig_cons; [exact Hsig| |].
+    + eapply g_method_declared; exact Em.
+    + apply (@g_imethods_sigs U j), Hin.
+Qed.
+
+(** ** C05_methodset_partial: equality of the two name sets when every name yaegi finds resolves in Go *)
+Theorem methodset_agree : forall U t ptr nm,
+  wf U = true -> t < length (structs U) -> names_agree U t ptr = true ->
+  (In nm (y_method_names U t) <-> In nm (g_method_names U t ptr)).
+Proof.
+  intros U t ptr nm HU Ht Hn. split; [|apply methodset_over; assumption].
+  intros H. unfold g_method_names. apply filter_In.
+  unfold names_agree in Hn. rewrite forallb_forall in Hn. specialize (Hn nm H). split; [|exact Hn].
+  unfold y_method_names in H. apply mget_keys in H as [v Hv]. apply mget_in in Hv. apply y_methods_declared in Hv.
+  destruct Hv as [d [m [Hd [Hm Heq]]]]. injection Heq as -> _.
+  unfold all_meth_names. apply in_flat_map. exists d. split; [exact Hd|]. apply in_map; exact Hm.
+Qed.
+
+(** witnesses *)
+(** type A struct{ X int }; func (A) M(); func ( *A) P();  type B struct{ A };
+    type I interface{ M() }; type J interface{ M(); P() }; type K interface{ M(int) } *)
+Definition U_assert : universe :=
+  mkU [ mkS [plainF "X"] [mkM (s "M") false 0 1; mkM (s "P") true 0 2]; mkS [embF "A" 0] [] ]
+      [ mkI [(s "M", 0%N)] []; mkI [(s "M", 0%N); (s "P", 0%N)] []; mkI [(s "M", 1%N)] [] ].
+
+(** a B value is not a J (P needs an addressable receiver), yaegi says it is *)
+Lemma assert_methodset_refuted :
+  y_assert U_assert SrcIface [(s "M", 0%N)] (Some (1, false)) (TIface 1) A2 = ATrue
+  /\ g_assert U_assert (Some (1, false)) (TIface 1) A2 = AFalse
+  /\ names_agree U_assert 1 false = false /\ sig_consistent (mkU (structs U_assert) (firstn 2 (ifaces U_assert))) = true.
+Proof. vm_compute. repeat split. Qed.
+
+(** signature clash: type T struct{}; func (T) M(k int); interface{ M() }: the first parameter is stripped *)
+Definition U_sig : universe := mkU [ mkS [plainF "X"] [mkM (s "M") false 1 1] ] [ mkI [(s "M", 0%N)] [] ].
+
+Lemma assert_sig_refuted :
+  y_assert U_sig SrcIface [] (Some (0, false)) (TIface 0) A2 = ATrue
+  /\ g_assert U_sig (Some (0, false)) (TIface 0) A2 = AFalse
+  /\ sig_consistent U_sig = false /\ names_agree U_sig 0 false = true.
+Proof. vm_compute. repeat split. Qed.
+
+(** one-result form: a failing assertion does not panic unless the value has fewer methods than the target *)
+Lemma assert1_refuted :
+  y_assert U_assert SrcIface [] (Some (0, false)) (TIface 2) A1 = ALate
+  /\ g_assert U_assert (Some (0, false)) (TIface 2) A1 = APanic.
+Proof. vm_compute. split; reflexivity. Qed.
+
+(** nil interface value, two-result form to an interface type: yaegi panics *)
+Lemma assert_nil_refuted :
+  y_assert U_assert SrcIface [] None (TIface 0) A2 = APanic /\ g_assert U_assert None (TIface 0) A2 = AFalse.
+Proof. vm_compute. split; reflexivity. Qed.
+
+(** type T0 struct{}; func ( *T0) N();  type T1 struct{ *T0 }: i.(T1) is legal for an interface{ N() }, yaegi rejects it *)
+Definition U_static : universe :=
+  mkU [ mkS [plainF "X"] [mkM (s "N") true 0 1]; mkS [mkF (s "T0") true (Some (true, 0))] [] ] [ mkI [(s "N", 0%N)] [] ].
+
+Lemma assert_static_refuted :
+  y_assert U_static SrcIface [(s "N", 0%N)] (Some (1, false)) (TStruct 1) A2 = AOther
+  /\ g_assert U_static (Some (1, false)) (TStruct 1) A2 = ATrue /\ g_implements U_static 1 false 0 = true.
+Proof. vm_compute. repeat split. Qed.
+
+Lemma assert_side_inhabited :
+  wf U_assert = true /\ sig_consistent (mkU (structs U_assert) (firstn 2 (ifaces U_assert))) = true
+  /\ names_agree U_assert 1 true = true
+  /\ g_assert U_assert (Some (1, true)) (TIface 1) A2 = ATrue /\ g_assert U_assert (Some (0, false)) (TIface 0) A2 = ATrue
+  /\ names_agree U_assert 0 true = true /\ y_method_names U_assert 1 = [s "M"; s "P"].
+Proof. vm_compute. repeat split. Qed.
